@@ -104,9 +104,6 @@ type c09Raw struct {
 }
 
 func c09Class(b []byte) string {
-	if bytes.IndexByte(b, 0) >= 0 {
-		return "C05-stream-nul"
-	}
 	if t := bytes.TrimLeft(b, " \t\r\n"); len(t) > 0 && (t[0] == ',' || t[0] == ':') {
 		return "C05-stream-leading-separator"
 	}
@@ -441,8 +438,12 @@ func c09StreamOps(c *Ctx, ndocs int) {
 				k = remaining
 			}
 			p := make([]byte, k)
+			nuls := c.Rng.Intn(3) == 0 // NUL bytes in the input are input like any other
 			for j := range p {
 				p[j] = byte('a' + c.Rng.Intn(26))
+				if nuls && c.Rng.Intn(40) == 0 {
+					p[j] = 0
+				}
 			}
 			pieces = append(pieces, p)
 			remaining -= k
